@@ -323,7 +323,7 @@ def explore(rep, br, tier, seed):
             continue
         why = also_missing(c, r)
         if why:
-            rep.violate("C17:%s:unreported" % kind, "a fault planted in a second included file is not reported where it is: " + why, describe(it, c),
+            rep.violate("C17:%s:unreported" % kind, "a diagnostic the planted fault(s) must produce (a second faulty file, or the follow-up report of the same fault) does not lead with its token: " + why, describe(it, c),
                         impl={"all": [[x[0], x[1], x[2][:1]] for x in r["diags"]][:6]}, replay_kind="planted")
             continue
         t, why = case_term(c, r)
